@@ -2361,7 +2361,7 @@ func parseQuotedIdentifier(s string) (string, error) {
 
 				var r2 rune
 				for _, c := range v[2:6] {
-					if c >= 0 && c <= '9' {
+					if c >= '0' && c <= '9' {
 						r2 = r2*16 + rune(c-'0')
 					} else if c >= 'a' && c <= 'f' {
 						r2 = r2*16 + rune(c-'a'+10)
